@@ -8,7 +8,11 @@ import (
 	"fmt"
 	"math"
 	"os"
+	"regexp"
+	"slices"
+	"sort"
 	"strconv"
+	"strings"
 	"testing"
 	"time"
 
@@ -59,6 +63,73 @@ type Case struct {
 	// Huge: two more documents whose dur values are finite but add up beyond float64
 	// (1e308 + 1.5e308): sums and averages are +Inf in the synchronous answer
 	Huge bool `json:"huge,omitempty"`
+	// Phrase: the store runs with a mapping in which msg is a text field (every other field the
+	// request names is a keyword field), and the asynchronous search gets the query extended by
+	// `and msg:"w1 w2 ..."`: on a text field a value of several words denotes the conjunction of its
+	// words.  The synchronous comparison and the model use the written-out conjunction.  The
+	// persisted text is parsed again at every resumption - with the same mapping.
+	Phrase    []string `json:"phrase,omitempty"`
+	PhraseSep string   `json:"phrase_sep,omitempty"`
+}
+
+func fieldsOf(q *model.Q, into map[string]bool) {
+	if q == nil {
+		return
+	}
+	if q.Field != "" {
+		into[q.Field] = true
+	}
+	for _, k := range q.Kids {
+		fieldsOf(k, into)
+	}
+}
+
+// phraseMapping: the fields the store's mapping lists in phrase mode
+func (c *Case) phraseMapping() []string {
+	if len(c.Phrase) == 0 {
+		return nil
+	}
+	set := map[string]bool{}
+	fieldsOf(c.R.Q, set)
+	for _, a := range c.Aggs {
+		set[a.Field], set[a.GroupBy] = true, true
+	}
+	for _, f := range gen.AllFields {
+		set[f] = true
+	}
+	delete(set, "")
+	delete(set, gen.TextField)
+	out := []string{gen.TextField + ":text"}
+	for f := range set {
+		out = append(out, f)
+	}
+	sort.Strings(out)
+	return out
+}
+
+var phraseMark = regexp.MustCompile("[\"'`]?ZZPHRASEMARKZZ[\"'`]?")
+
+// texts: the query text for the synchronous search (parsed without a mapping, every field a
+// keyword) and for the asynchronous one; they differ in phrase mode only.  c.R.Q is the
+// written-out form, which the model evaluates.
+func (c *Case) texts() (syncText, asyncText string) {
+	if len(c.Phrase) == 0 {
+		t := model.RenderSeqQL(c.R.Q, c.Style)
+		return t, t
+	}
+	var conj *model.Q
+	for _, w := range c.Phrase {
+		l := model.Lit(gen.TextField, model.Exact(w))
+		if conj == nil {
+			conj = l
+		} else {
+			conj = model.And(conj, l)
+		}
+	}
+	orig := c.R.Q
+	c.R.Q = model.And(orig, conj)
+	marked := model.RenderSeqQL(model.And(orig, model.Lit(gen.TextField, model.Exact("ZZPHRASEMARKZZ"))), c.Style)
+	return model.RenderSeqQL(c.R.Q, c.Style), phraseMark.ReplaceAllLiteralString(marked, `"`+strings.Join(c.Phrase, c.PhraseSep)+`"`)
 }
 
 func genCase(t *rapid.T) Case {
@@ -118,7 +189,37 @@ func genCase(t *rapid.T) Case {
 	if c.N > 0 && len(c.Late) == 0 && !c.Retire && !c.BadAgg && !c.Huge {
 		c.Remap = rapid.IntRange(0, 4).Draw(t, "remap") == 4
 	}
+	used := map[string]bool{}
+	fieldsOf(c.R.Q, used)
+	if !c.Remap && !c.BadAgg && !used[gen.TextField] && rapid.IntRange(0, 3).Draw(t, "phrase") == 3 {
+		// words of one document's text field where possible, so that the phrase selects something
+		var have []string
+		for _, i := range rapid.Permutation(seqInts(len(c.Corpus))).Draw(t, "phrasedoc") {
+			have = have[:0]
+			for _, tk := range c.Corpus[i].Toks {
+				if tk.F == gen.TextField && tk.V != "" && !slices.Contains(have, tk.V) {
+					have = append(have, tk.V)
+				}
+			}
+			if len(have) >= 2 {
+				break
+			}
+		}
+		for len(have) < 2 {
+			have = append(have, rapid.SampledFrom(gen.ValsOf(gen.TextField)).Draw(t, "phraseword"))
+		}
+		c.Phrase = have[:rapid.IntRange(2, min(3, len(have))).Draw(t, "phraselen")]
+		c.PhraseSep = rapid.SampledFrom([]string{" ", ", ", " - ", "  ", "/"}).Draw(t, "phrasesep")
+	}
 	return c
+}
+
+func seqInts(n int) []int {
+	out := make([]int, n)
+	for i := range out {
+		out[i] = i
+	}
+	return out
 }
 
 func waitDone(p *harness.Proc, id string, aggs []model.AggSpec) (*harness.PResp, error) {
@@ -263,7 +364,11 @@ func runCase(c Case) (evid.Result, error) {
 	dir := evid.ScratchDir("c19")
 	defer os.RemoveAll(dir)
 	opts := harness.StoreOpts{}
-	p, err := harness.OpenProcAsync(dir, opts, c.Fsync, true)
+	pmap := c.phraseMapping()
+	if pmap != nil {
+		res.Labels = append(res.Labels, "phrase-on-a-text-field")
+	}
+	p, err := harness.OpenProcAsyncMapped(dir, opts, c.Fsync, true, pmap)
 	if err != nil {
 		return res, evid.Failf("no-start", "%v", err)
 	}
@@ -317,7 +422,7 @@ func runCase(c Case) (evid.Result, error) {
 	if dupApplied {
 		res.Labels = append(res.Labels, "document-in-two-fractions")
 	}
-	text := model.RenderSeqQL(c.R.Q, c.Style)
+	text, atext := c.texts()
 	// the synchronous answer over the same fractions
 	sync, err := p.Do(harness.PCmd{Op: "search", Req: &c.R, Text: text, Aggs: c.Aggs})
 	if err != nil {
@@ -346,9 +451,9 @@ func runCase(c Case) (evid.Result, error) {
 	expected := c.Corpus // the documents of the fractions that existed when the search was (re)started
 	lateIngested := false
 	var final *harness.PResp
-	r, err := p.Do(harness.PCmd{Op: "startasync", ID: id, Req: &c.R, Text: text, Aggs: c.Aggs})
+	r, err := p.Do(harness.PCmd{Op: "startasync", ID: id, Req: &c.R, Text: atext, Aggs: c.Aggs})
 	if err == nil && !r.OK {
-		return res, evid.Failf("startasync-error", "%q: %s", text, r.Err)
+		return res, evid.Failf("startasync-error", "%q: %s", atext, r.Err)
 	}
 	if err == nil {
 		final, err = waitDone(p, id, c.Aggs)
@@ -421,7 +526,7 @@ func runCase(c Case) (evid.Result, error) {
 		if c.Remap {
 			return resumeRemapped(&c, dir, opts, id, text, res)
 		}
-		p, err = harness.OpenProcAsync(dir, opts, c.Fsync, true)
+		p, err = harness.OpenProcAsyncMapped(dir, opts, c.Fsync, true, pmap)
 		if err != nil {
 			return res, evid.Failf("no-start", "after crash %d: %v", crashes, err)
 		}
@@ -440,7 +545,7 @@ func runCase(c Case) (evid.Result, error) {
 				// the search is started anew now: the late fraction exists at its start
 				expected = append(append(model.Corpus{}, c.Corpus...), c.Late...)
 			}
-			if r, serr := p.Do(harness.PCmd{Op: "startasync", ID: id, Req: &c.R, Text: text, Aggs: c.Aggs}); serr != nil {
+			if r, serr := p.Do(harness.PCmd{Op: "startasync", ID: id, Req: &c.R, Text: atext, Aggs: c.Aggs}); serr != nil {
 				err = serr
 				continue
 			} else if !r.OK {
@@ -497,7 +602,7 @@ func runCase(c Case) (evid.Result, error) {
 	if err := p.StopGraceful(); err != nil {
 		return res, evid.Failf("stop-failed", "%v", err)
 	}
-	p, err = harness.OpenProcAsync(dir, opts, c.Fsync, true)
+	p, err = harness.OpenProcAsyncMapped(dir, opts, c.Fsync, true, pmap)
 	if err != nil {
 		return res, evid.Failf("no-start", "final: %v", err)
 	}
